@@ -208,6 +208,13 @@ func VxC05Compact() {
 	}
 	if err == nil {
 		vx.Assert("success-means-stored", info != nil && exists(info) && info.MinTXID == 2 && int(info.MaxTXID) == 1+k)
+		// and the stored file holds what its name says: the newest source's commit size
+		// (every source writes its own size; a file that left a source out shows it)
+		if info != nil && exists(info) {
+			out, derr := vxDecodeLTX(c.data[vxKey(1, info.MinTXID, info.MaxTXID)])
+			newest, _ := vxDecodeLTX(c.data[vxKey(0, info.MaxTXID, info.MaxTXID)])
+			vx.Assert("success-means-every-source-was-compacted", derr == nil && newest != nil && out.commit == newest.commit && out.ts == newest.ts)
+		}
 	}
 	// whatever is stored under a level-1 name decodes completely (no partial upload is visible)
 	for _, f := range c.files {
